@@ -4,7 +4,7 @@ from __future__ import annotations
 from ..runner import Suite
 
 MANIFEST = dict(
-    text="Lean 4 theorems over ALL integers about the classifier regenerated from types/errors.py on every run (total, non-retryable exactly on the documented permanent set, sets disjoint, named codes partitioned), plus theorems on the timed send_message model that a first-matching error response always raises with the server's code/message and never returns; bool helpers map errors to False. Translation validation of the regenerated function on -33100..-31900, -200..200 and seeded 64-bit values; correspondence of the error path through send_message and every typed helper.",
+    text="Lean 4 theorems over ALL integers about the classifier regenerated from types/errors.py on every run (total, non-retryable exactly on the documented permanent set, sets disjoint, named codes partitioned), plus theorems on the timed send_message model that a first-matching error response always raises with the server's code/message and never returns; bool helpers map errors to False; a call of the high-level MCPClient raises the error of ITS OWN request (first unconsumed message bearing that id on the connection), classified by the regenerated classifier. Translation validation of the regenerated function on -33100..-31900, -200..200 and seeded 64-bit values; correspondence of the error path through send_message and every typed helper.",
     note='Trusted: Lean kernel, the AST translator (validated against the real function on the exhaustive grid every run), the correspondence harness; the documented permanent set is pinned from the verified commit.',
     technique='Lean 4 proof over a model regenerated from source by a translator + translation validation + correspondence run',
     design='5/C07',
